@@ -17,9 +17,16 @@ case "$MODE" in
   tsan)  SAN="-O1 -fsanitize=thread" ;;
   *) echo "bad mode $MODE" >&2; exit 2 ;;
 esac
+# the SIMD / architecture defines of the tree's own (autotools) build, so that code under
+# INTEL_* / ARCH_64 conditionals is the code that is checked; a safe default without a Makefile
+ARCHDEF="-DARCH_64"
+SIMD_TREE=""
+if [ -f "$REPO/Makefile" ]; then
+  SIMD_TREE=$(grep -m1 '^CFLAGS *=' "$REPO/Makefile" | tr ' ' '\n' | grep -E '^(-m(mmx|sse[0-9.]*|ssse3|avx2?)|-DINTEL_[A-Z0-9]+|-DARCH_[0-9]+)$' | tr '\n' ' ')
+fi
 case "$FLAVOUR" in
-  sse2) SIMD="-msse2 -DINTEL_SSE2" ;;
-  portable) SIMD="" ;;
+  sse2) if [ -n "$SIMD_TREE" ]; then SIMD="$SIMD_TREE"; else SIMD="-msse2 -DINTEL_SSE2 $ARCHDEF"; fi ;;
+  portable) SIMD="$ARCHDEF" ;;
 esac
 INC="-I$OUT/inc -I$REPO/include -I$REPO/include/erasurecode -I$REPO/include/xor_codes -I$REPO/include/rs_vand -I$REPO/include/isa_l -I$REPO/include/shss"
 mkdir -p "$OUT/inc"
@@ -31,9 +38,9 @@ S="$REPO/src"
 (
 $CC $COMMON $SAN $SIMD $INC -shared -Wl,-soname,libXorcode.so.1 -o "$OUT/libXorcode.so.1" \
     $S/builtin/xor_codes/xor_code.c $S/builtin/xor_codes/xor_hd_code.c &
-$CC $COMMON $SAN $INC -shared -Wl,-soname,libnullcode.so.1 -o "$OUT/libnullcode.so.1" \
+$CC $COMMON $SAN $SIMD $INC -shared -Wl,-soname,libnullcode.so.1 -o "$OUT/libnullcode.so.1" \
     $S/builtin/null_code/null_code.c &
-$CC $COMMON $SAN $INC -shared -Wl,-soname,liberasurecode_rs_vand.so.1 -o "$OUT/liberasurecode_rs_vand.so.1" \
+$CC $COMMON $SAN $SIMD $INC -shared -Wl,-soname,liberasurecode_rs_vand.so.1 -o "$OUT/liberasurecode_rs_vand.so.1" \
     $S/builtin/rs_vand/rs_galois.c $S/builtin/rs_vand/liberasurecode_rs_vand.c &
 wait
 )
@@ -52,7 +59,7 @@ LIBSRC="$S/erasurecode.c $S/erasurecode_helpers.c $S/erasurecode_preprocessing.c
 pids=""
 i=0
 for src in $LIBSRC; do
-  $CC $COMMON $SAN $INC -c "$src" -o "$OUT/obj_$i.o" &
+  $CC $COMMON $SAN $SIMD $INC -c "$src" -o "$OUT/obj_$i.o" &
   pids="$pids $!"
   i=$((i+1))
 done
